@@ -967,7 +967,7 @@ func (w *world) obs() {
 		}
 		parts = append(parts, "(summary "+strings.Join(sm, " ")+")")
 		var lk []string
-		for _, q := range []string{"10.1.0.0/24", "10.1.0.0/25", "10.1.0.0/16", "10.0.0.0/8", "10.1.0.128/25", "10.2.0.0/24", "10.3.0.0/16", "10.3.4.0/24"} {
+		for _, q := range []string{"10.1.0.0/24", "10.1.0.0/25", "10.1.0.0/16", "10.0.0.0/8", "10.1.0.128/25", "10.2.0.0/24", "10.3.0.0/16", "10.3.4.0/24", "0.0.0.0/0", "192.168.1.0/24"} {
 			for i, opt := range []apiutil.LookupOption{apiutil.LOOKUP_EXACT, apiutil.LOOKUP_LONGER, apiutil.LOOKUP_SHORTER} {
 				var got []string
 				w.s.ListPath(apiutil.ListPathRequest{TableType: api.TableType_TABLE_TYPE_GLOBAL, Family: bgp.RF_IPv4_UC,
